@@ -322,6 +322,9 @@ func confirmNatively(bin, harness, replayPath, assertID string, tries int) (bool
 			return true, last
 		case r.exit == 2 && crashOK:
 			return true, last + " (native crash: " + firstLine(r.out) + ")"
+		case r.exit == 2 && containsStr(r.fails, assertID):
+			// the assertion failed natively as predicted; the run crashed later on
+			return true, last + " (then the native run crashed: " + firstLine(r.out) + ")"
 		case r.exit == 124 && hangOK:
 			return true, last + " (native run did not terminate)"
 		case r.exit == 2 && hangOK && strings.Contains(r.out, "all goroutines are asleep"):
@@ -331,6 +334,15 @@ func confirmNatively(bin, harness, replayPath, assertID string, tries int) (bool
 		}
 	}
 	return false, last
+}
+
+func containsStr(xs []string, x string) bool {
+	for _, y := range xs {
+		if y == x {
+			return true
+		}
+	}
+	return false
 }
 
 func firstLine(s string) string {
